@@ -23,6 +23,10 @@ package main
 //   srvInvokeDecBeforeWrite      number of plain (not deferred) `atomic.AddInt32(&connSt.numInvoke, -1)` statements
 //                                in that closure that stand BEFORE its `connSt.conn.Write(…)` call (the counter
 //                                is released while the response is still to be written)
+//   srvRecvDrainTickFirst        1 when the test `atomic.LoadInt32(&connSt.numInvoke) == 0` of recv's deferred drain
+//                                stands INSIDE the body of `for range tk.C { … }` (it is reached only after a
+//                                receive from the ticker: a connection is closed one tick after its receive loop
+//                                returned at the earliest), 0 otherwise (e.g. `for numInvoke > 0 { <-tk.C }`)
 //   srvRecvDrainChecks           comparisons `atomic.LoadInt32(&connSt.numInvoke) == 0` in recv (the
 //                                deferred drain-then-close)
 
@@ -296,6 +300,22 @@ func init() {
 				return true
 			})
 			add("srvRecvDrainChecks", n, true)
+			var tickFirst int64
+			ast.Inspect(fd, func(x ast.Node) bool {
+				rs, ok := x.(*ast.RangeStmt)
+				if !ok || exprStr(h.fset, rs.X) != "tk.C" {
+					return true
+				}
+				ast.Inspect(rs.Body, func(y ast.Node) bool {
+					if be, ok := y.(*ast.BinaryExpr); ok && be.Op == token.EQL &&
+						exprStr(h.fset, be.X) == "atomic.LoadInt32(&connSt.numInvoke)" {
+						tickFirst = 1
+					}
+					return true
+				})
+				return true
+			})
+			add("srvRecvDrainTickFirst", tickFirst, true)
 		}
 		v, ok = h.durMillis("tcpHandler.recv", "time.NewTicker", 0) // watchInterval of the deferred drain
 		add("srvDrainPollMs", v, ok)
